@@ -65,6 +65,13 @@ func (e *ev) openClosedEdges(fn *ssa.Function) (open, closed map[edgeKey]bool) {
 					openSucc, closedSucc = cd.True, cd.False
 				}
 			}
+		case (cd.Op == token.EQL || cd.Op == token.NEQ) && e.isOpenErrCheck(cd) != nil:
+			// err := c.ensureOpen(); err != nil  (helper returning the closed error, nil only when open)
+			if cd.Op == token.EQL {
+				openSucc, closedSucc = cd.True, cd.False
+			} else {
+				openSucc, closedSucc = cd.False, cd.True
+			}
 		case cd.Op == token.EQL || cd.Op == token.NEQ:
 			for _, side := range [][2]ssa.Value{{cd.X, cd.Y}, {cd.Y, cd.X}} {
 				if li, ok := side[0].(ssa.Instruction); ok && e.closedLoad(li) {
@@ -84,6 +91,63 @@ func (e *ev) openClosedEdges(fn *ssa.Function) (open, closed map[edgeKey]bool) {
 		}
 	}
 	return
+}
+
+// isOpenErrCheck: cond compares with nil the result of a repo helper that returns nil only after
+// observing the closed flag open and a provably non-nil error otherwise. Returns the helper.
+func (e *ev) isOpenErrCheck(cd *core.Cond) *ssa.Function {
+	for _, side := range [][2]ssa.Value{{cd.X, cd.Y}, {cd.Y, cd.X}} {
+		if !core.IsNilConst(side[1]) {
+			continue
+		}
+		v := core.Unwrap(core.ForwardLoad(core.Unwrap(side[0])))
+		call, ok := v.(*ssa.Call)
+		if !ok || call.Call.IsInvoke() {
+			continue
+		}
+		f := call.Call.StaticCallee()
+		if f == nil || !e.p.InRepo(f) || f.Signature.Results().Len() != 1 || !isErrorT(f.Signature.Results().At(0).Type()) {
+			continue
+		}
+		if e.openErrFuncs == nil {
+			e.openErrFuncs = map[*ssa.Function]int{}
+		}
+		if st, ok := e.openErrFuncs[f]; ok {
+			if st == 1 {
+				return f
+			}
+			continue
+		}
+		e.openErrFuncs[f] = 0
+		open, _ := e.openClosedEdges(f)
+		if len(open) == 0 {
+			continue
+		}
+		good := true
+		core.AllInstrs(f, func(in ssa.Instruction) {
+			ret, ok := in.(*ssa.Return)
+			if !ok {
+				return
+			}
+			if core.IsNilConst(ret.Results[0]) {
+				if t, _ := core.Search(nil, f.Blocks[0], func(x ssa.Instruction) core.Action {
+					if x == ssa.Instruction(ret) {
+						return core.Target
+					}
+					return core.Continue
+				}, func(a, b *ssa.BasicBlock) bool { return !open[edgeKey{a, b}] }); t != nil {
+					good = false
+				}
+			} else if !e.nonNilError(ret.Results[0], ret, 0) {
+				good = false
+			}
+		})
+		if good {
+			e.openErrFuncs[f] = 1
+			return f
+		}
+	}
+	return nil
 }
 
 func (e *ev) writeEvent(in ssa.Instruction) bool {
@@ -381,11 +445,7 @@ func doneReceiver(v ssa.Value) ssa.Value {
 }
 
 // nonNilError: v, used at instruction `at`, cannot be nil.
-func (e *ev) nonNilError(v ssa.Value, at ssa.Instruction, depth int) bool {
-	if depth > 4 {
-		return false
-	}
-	v = core.Unwrap(v)
+func (e *ev) nonNilByShape(v ssa.Value, at ssa.Instruction, depth int) bool {
 	switch x := v.(type) {
 	case *ssa.Const:
 		return !x.IsNil()
@@ -424,6 +484,17 @@ func (e *ev) nonNilError(v ssa.Value, at ssa.Instruction, depth int) bool {
 			})
 			return all && n > 0
 		}
+	}
+	return false
+}
+
+func (e *ev) nonNilError(v ssa.Value, at ssa.Instruction, depth int) bool {
+	if depth > 4 {
+		return false
+	}
+	v = core.Unwrap(v)
+	if e.nonNilByShape(v, at, depth) {
+		return true
 	}
 	// guarded by a dominating nil test of v
 	if at != nil && nonNilGuarded(at, v) {
